@@ -310,10 +310,12 @@ func (r *runner) run(ctx context.Context, isStream bool, input any, opts ...Opti
 			// report current graph interrupt info
 			return nil, r.handleInterruptWithSubGraphAndRerunNodes(
 				ctx,
+				nil,
 				interruptRerunNodes,
 				subGraphInterrupts,
 				interruptAfterNodes,
 				append(completedTasks, cpt...),
+				nil,
 				checkPointID,
 				isSubGraph,
 				cm,
@@ -348,12 +350,16 @@ func (r *runner) run(ctx context.Context, isStream bool, input any, opts ...Opti
 			}
 
 			if len(subGraphInterrupts)+len(interruptRerunNodes) > 0 {
+				// completedTasks have already been resolved into nextTasks above: only the newly
+				// completed ones go to the channels, the pending tasks are saved with their inputs
 				return nil, r.handleInterruptWithSubGraphAndRerunNodes(
 					ctx,
+					interruptBeforeNodes,
 					interruptRerunNodes,
 					subGraphInterrupts,
 					interruptAfterNodes,
-					append(completedTasks, newCompletedTasks...),
+					newCompletedTasks,
+					nextTasks,
 					checkPointID,
 					isSubGraph,
 					cm,
@@ -461,10 +467,12 @@ func (r *runner) handleInterrupt(
 
 func (r *runner) handleInterruptWithSubGraphAndRerunNodes(
 	ctx context.Context,
+	interruptBeforeNodes []string,
 	interruptRerunNodes []string,
 	subGraphInterrupts map[string]*subGraphInterruptError,
 	interruptAfterNodes []string,
 	completeTasks []*task,
+	pendingTasks []*task,
 	checkPointID *string,
 	isSubGraph bool,
 	cm *channelManager,
@@ -516,10 +524,14 @@ func (r *runner) handleInterruptWithSubGraphAndRerunNodes(
 		cp.State = state.state
 	}
 	intInfo := &InterruptInfo{
-		State:      cp.State,
-		AfterNodes: interruptAfterNodes,
-		RerunNodes: interruptRerunNodes,
-		SubGraphs:  make(map[string]*InterruptInfo),
+		State:       cp.State,
+		BeforeNodes: interruptBeforeNodes,
+		AfterNodes:  interruptAfterNodes,
+		RerunNodes:  interruptRerunNodes,
+		SubGraphs:   make(map[string]*InterruptInfo),
+	}
+	for _, t := range pendingTasks {
+		cp.Inputs[t.nodeKey] = t.input
 	}
 	for _, t := range subgraphTasks {
 		if isStream {
